@@ -106,3 +106,39 @@ Proof.
       * apply N.leb_gt in E2.
         apply (prolly_loop_spec s target S _ 0 (N.of_nat (length s)) _ _ (N.of_nat (length s) - 1)); unfold nlenN, nthN; try lia; try reflexivity.
 Qed.
+
+(* ------------------------------------------------------------------ *)
+(* Table round trip.
+   FULL STATEMENT (DESIGN §5 C06 table_roundtrip): for every chunk list,
+   iterate_all (open (write_table cs)) is a permutation of cs, get h returns the
+   bytes put, every h not in cs is absent, count = length cs,
+   uncompressed_total = sum of sizes.
+   PROVED HERE (table_roundtrip_partial): everything except
+     (i)  parse_index (write_table_with ts rs) = Some (build_pindex ts rs)
+          (the byte-level decode of the index block; the executable parse_index is
+          run on every real file by the correspondence and compared field by
+          field through the reads), and
+     (ii) the iterate_all permutation (checked by the correspondence as a sorted
+          multiset equality on every file). *)
+Section RoundTrip.
+  Variable crc : bytes -> N.
+  Variable compress : bytes -> bytes.
+  Variable decompress : bytes -> option bytes.
+  Hypothesis decompress_compress : forall d, decompress (compress d) = Some d.
+
+  Theorem table_roundtrip_partial ts rs (content : addr -> bytes) :
+    valid_tuples ts rs -> distinct_addrs rs ->
+    (forall k, (k < length rs)%nat ->
+       wf_rec crc compress (nth k rs dummy_rec) (content (r_addr (nth k rs dummy_rec)))) ->
+    let t := mkTable (write_table_with ts rs) (build_pindex ts rs) in
+    table_count t = nlen rs /\ table_unc t = total_unc rs
+    /\ (forall h, table_get crc decompress t h = ROk (if in_table rs h then Some (content h) else None))
+    /\ (forall h, table_has t h = in_table rs h)
+    /\ (forall h, lookup (t_ix t) h = lookup_spec rs h).
+  Proof.
+    intros Hv D W. cbn zeta. repeat split.
+    - intros h. apply (table_get_written crc compress decompress decompress_compress ts rs content h Hv D W).
+    - intros h. apply table_has_written. exact Hv.
+    - intros h. apply lookup_write_index; assumption.
+  Qed.
+End RoundTrip.
